@@ -11,6 +11,7 @@ import (
 	"database/sql/driver"
 	"errors"
 	"fmt"
+	"runtime"
 	"strings"
 
 	"github.com/zeromicro/go-zero/core/breaker"
@@ -34,6 +35,8 @@ type Case struct {
 	Fin        string `json:"fin"` // nil | err | panic
 	CommitOK   bool   `json:"commit_ok"`
 	RollbackOK bool   `json:"rollback_ok"`
+	Ctx        string `json:"ctx"`    // "" | live | dead (cancelled before the call) | at (cancelled by the body)
+	CtxAt      int    `json:"ctx_at"` // at: just before statement ctx_at (== len(stmts): after the last one)
 }
 
 type ErrFacts struct {
@@ -45,6 +48,7 @@ type ErrFacts struct {
 	SameAsBody bool   `json:"same_as_body"`
 	Recover    bool   `json:"recover"`
 	TxFailed   bool   `json:"txfailed"`
+	Canceled   bool   `json:"canceled"`
 	Text       string `json:"text"`
 }
 
@@ -166,10 +170,21 @@ func runCase(c Case) (out Out) {
 
 	var bodyRet error
 	plain := c.API == "plain" || c.API == "cachedplain"
+	callCtx, cancelCall := context.WithCancel(context.Background())
+	defer cancelCall()
+	if c.Ctx == "dead" {
+		cancelCall()
+	}
 	body := func(ctx context.Context, s sqlx.Session) error {
 		out.Runs++
 		out.Body = []any{"running"}
+		if c.Ctx == "at" && c.CtxAt >= len(c.Stmts) {
+			defer cancelCall()
+		}
 		for k, st := range c.Stmts {
+			if c.Ctx == "at" && c.CtxAt == k {
+				cancelCall()
+			}
 			var err error
 			q := fmt.Sprintf("stmt %d", k)
 			switch {
@@ -187,7 +202,7 @@ func runCase(c Case) (out Out) {
 			}
 			switch st.OnFail {
 			case "stop":
-				if st.Res == "ctx" {
+				if st.Res == "ctx" || errors.Is(err, context.Canceled) {
 					out.Body = []any{"ctx", k}
 				} else {
 					out.Body = []any{"stmt", k}
@@ -207,13 +222,16 @@ func runCase(c Case) (out Out) {
 		case "panic":
 			out.Body = []any{"panic"}
 			panic("body panics")
+		case "goexit": // not generated by the check: used once to record what happens (notes/C14.md)
+			out.Body = []any{"goexit"}
+			runtime.Goexit()
 		}
 		out.Body = []any{"nil"}
 		return nil
 	}
 
 	var err error
-	func() {
+	call := func() {
 		defer func() {
 			if r := recover(); r != nil {
 				out.Panicked = fmt.Sprint(r)
@@ -223,15 +241,26 @@ func runCase(c Case) (out Out) {
 		case "plain":
 			err = conn.Transact(func(s sqlx.Session) error { return body(context.Background(), s) })
 		case "cached":
-			err = sqlc.NewConnWithCache(conn, nil).TransactCtx(context.Background(), body)
+			err = sqlc.NewConnWithCache(conn, nil).TransactCtx(callCtx, body)
 		case "cachedplain":
 			err = sqlc.NewConnWithCache(conn, nil).Transact(func(s sqlx.Session) error {
 				return body(context.Background(), s)
 			})
 		default:
-			err = conn.TransactCtx(context.Background(), body)
+			err = conn.TransactCtx(callCtx, body)
 		}
-	}()
+	}
+	if c.Fin == "goexit" {
+		done := make(chan struct{})
+		go func() {
+			defer close(done)
+			call()
+		}()
+		<-done
+		err = errors.New("goroutine exited: Transact never returned")
+	} else {
+		call()
+	}
 
 	out.Log = p.log
 	if out.Log == nil {
@@ -248,6 +277,7 @@ func runCase(c Case) (out Out) {
 		f.Begin = errors.Is(err, errBegin)
 		f.Commit = errors.Is(err, errCommit)
 		f.Rollback = errors.Is(err, errRollback)
+		f.Canceled = errors.Is(err, context.Canceled)
 		f.SameAsBody = bodyRet != nil && err == bodyRet
 		f.Recover = strings.HasPrefix(msg, "recover from ")
 		f.TxFailed = bodyRet != nil && strings.HasPrefix(msg, "transaction failed: "+bodyRet.Error()+", rollback failed: ")
